@@ -57,6 +57,7 @@ import (
 	"strings"
 	"sync"
 	"time"
+	"unicode"
 
 	past "github.com/mna/pigeon/ast"
 
@@ -117,6 +118,9 @@ type gram struct {
 	class   string
 	kinds   [18]int
 	sites   int
+	// probe: a one-rule grammar around a class NAME the front-end may or may not accept; a refusal by pigeon is fine,
+	// an acceptance has to lead to a package that compiles and initialises
+	probe bool
 }
 
 // refMode: see the -ref flag
@@ -162,6 +166,9 @@ func main() {
 		var grams []*gram
 		for i := lo; i < hi; i++ {
 			grams = append(grams, makeGram(*seed, i, av, *allFlags))
+		}
+		if lo == 0 && !refMode {
+			grams = append(grams, classProbes(*seed, av)...)
 		}
 		fails, err := runBatch(grams, *pigeon, *jobs, *keep, rep)
 		if err != nil {
@@ -548,9 +555,16 @@ func runBatch(grams []*gram, pigeon string, jobs int, keep bool, rep *pvpeg.Repo
 		var se bytes.Buffer
 		cmd.Stderr = &se
 		if err := cmd.Run(); err != nil {
-			fail(u, "generate-failed", fmt.Sprintf("%v: %s", err, se.String()))
+			if u.g.probe && ctx.Err() == nil && !strings.Contains(se.String(), "goroutine ") {
+				rep.Count("class_probes", "refused", 1)
+			} else {
+				fail(u, "generate-failed", fmt.Sprintf("%v: %s", err, se.String()))
+			}
 			os.RemoveAll(filepath.Join(mod, u.dir))
 			return
+		}
+		if u.g.probe {
+			rep.Count("class_probes", "accepted", 1)
 		}
 		u.gen, _ = os.ReadFile(filepath.Join(pdir, "parser.go"))
 		os.WriteFile(filepath.Join(pdir, "support.go"), []byte(pvpeg.SupportFileOpts(u.g.pkg, u.g.inputs, refMode)), 0o644)
@@ -879,4 +893,42 @@ func checkParams(u *unit) string {
 		diffs = append(diffs[:8], "...")
 	}
 	return strings.Join(diffs, "\n")
+}
+
+// classProbes: every name that looks like a Unicode class name to SOMEBODY (the aliases of the general categories that
+// newer Go versions know, lower-case and abbreviated spellings, script names in other cases) as `A <- [\p{NAME}]+`, with
+// and without -optimize-basic-latin. Whether the front-end accepts a name is its business (C03); a name it accepts has
+// to resolve when the generated package initialises and when the builder computes the Basic Latin table (C04, C13).
+func classProbes(seed int64, av pvpeg.Avoid) []*gram {
+	var names []string
+	for n := range unicode.CategoryAliases {
+		names = append(names, n)
+	}
+	names = append(names, "letter", "digit", "punct", "space", "Any", "ASCII", "Assigned", "LC", "L&", "latin", "LATIN", "Greek_", "Nd ", "IsLetter", "Alphabetic", "White_Space", "Hex_Digit", "ASCII_Hex_Digit")
+	sort.Strings(names)
+	var out []*gram
+	for k, nm := range names {
+		if strings.ContainsAny(nm, "}]\\\n") {
+			continue
+		}
+		r := pvpeg.SubRand(seed, 7, k)
+		pkg := fmt.Sprintf("pp%03d", k)
+		g := past.NewGrammar(past.Pos{})
+		g.Init = past.NewCodeBlock(past.Pos{}, "{\npackage "+pkg+"\n}")
+		rule := past.NewRule(past.Pos{}, past.NewIdentifier(past.Pos{}, "A"))
+		p := past.NewOneOrMoreExpr(past.Pos{})
+		p.Expr = pvpeg.BuildClass(r, []pvpeg.ClassItem{{Class: nm}}, false, false, av)
+		rule.Expr = p
+		g.Rules = append(g.Rules, rule)
+		st := pvpeg.Styles[0]
+		st.Avoid = av
+		text := pvpeg.Print(g, r, st)
+		gm := &gram{idx: 9000 + k, pkg: pkg, ast: g, text: text, inputs: []string{"a", "1", " ", ""}, class: "class-probe", probe: true}
+		gm.kinds, _ = pvpeg.CountKinds(g)
+		for j, fs := range []flagSet{{}, {flags: []string{"-optimize-basic-latin"}}} {
+			gm.units = append(gm.units, &unit{g: gm, fs: fs, dir: fmt.Sprintf("g%04d_f%02d", 9000+k, j), text: text})
+		}
+		out = append(out, gm)
+	}
+	return out
 }
